@@ -65,7 +65,8 @@ def world(tss, flags, store_schema, emit_step, script, with_step, struct):
                 '_default': 1.0 * units.fg, '_emit': True}
             spec['schema']['priv']['cs'] = {
                 '_default': 0, '_emit': True, '_serializer': VMC_SER}
-            spec['update']['priv']['mass'] = 1.0 * units.fg
+            # updates arrive in another compatible unit
+            spec['update']['priv']['mass'] = 0.001 * units.pg
             spec['update']['priv']['cs'] = 1
         else:
             for (store, var) in DESIGNATED:
@@ -92,20 +93,25 @@ def world(tss, flags, store_schema, emit_step, script, with_step, struct):
             'cls': 'P', 'pid': 'op', 'ts': 1,
             'schema': {'kids': {'*': {
                 'v': {'_default': 7, '_emit': True},
-                'w': {'_default': 8, '_emit': False}}}},
+                'w': {'_default': 8, '_emit': False},
+                'mass': {'_default': 1.0 * units.fg, '_emit': True}}}},
             'update': {'$n': {
-                0: {'kids': {'_add': [{'key': 'c0', 'state': {'v': 1}}]}},
+                0: {'kids': {'_add': [{'key': 'c0', 'state': {
+                    'v': 1, 'mass': 0.003 * units.pg}}]}},
                 1: {'kids': {'_add': [{'key': 'c1', 'state': {}}],
                              'c0': {'v': 10}}},
                 2: {'kids': {'_delete': ['c0']}}},
                 '$else': {}}}
         topology['op'] = {'kids': ('kids',)}
     eng = {'emit_step': emit_step}
+    # the initial value of the units variable is given in another
+    # compatible unit and reaches the store without passing an updater
+    state = {'s0': {'mass': 0.002 * units.pg}}
     if store_schema:
         eng['store_schema'] = store_schema
     return {'processes': processes, 'steps': steps, 'flow': flow,
             'topology': topology, 'script': list(script), 'engine': eng,
-            'family': 'E', 'tss': tuple(tss), 'flags': tuple(flags),
+            'state': state, 'family': 'E', 'tss': tuple(tss), 'flags': tuple(flags),
             'store_schema': store_schema, 'emit_step': emit_step,
             'with_step': with_step, 'struct': struct,
             'procs': [(ts, 'always') for ts in tss]}
@@ -127,7 +133,7 @@ def flagged(spec):
     def pred(path):
         val = path in on
         if spec['struct'] and path[0] == 'kids' and len(path) == 3:
-            val = path[2] == 'v'
+            val = path[2] in ('v', 'mass')
         # store_schema overrides, applied once at construction
         node = ss
         for depth, key in enumerate(path):
@@ -168,7 +174,7 @@ def row_matches(path, got, want):
         except Exception:  # noqa
             return False
         return (isinstance(got, str) and q.units == units.fg
-                and q.magnitude == want.to(units.fg).magnitude)
+                and abs(q.magnitude - want.to(units.fg).magnitude) < 1e-9)
     if path[-1] == 'cs':
         return got == f'vmc<{want}>'
     if isinstance(want, tuple):
